@@ -822,7 +822,10 @@ def cas5(ctx, c):
             loops = [n for n in ast.walk(hnode) if isinstance(n, ast.For) and isinstance(n.iter, ast.Call) and U(n.iter.func) == "range"]
             from ..consteval import try_fold
             cnt = [try_fold(l.iter.args[-1], ctx.env) for l in loops]
-            c.check(cnt == [lay["name"][1]], "%s:count" % hname[5:], "reads %d bytes" % lay["name"][1], "reads %s bytes" % cnt,
+            if not cnt:
+                c.undecided("%s:count" % hname[5:], "read-loop-not-recognised", "", repo.loc(rf, hnode))
+            else:
+              c.check(cnt == [lay["name"][1]], "%s:count" % hname[5:], "reads %d bytes" % lay["name"][1], "reads %s bytes" % cnt,
                     "%s reads %s name bytes, the field has %d" % (hname[5:], cnt, lay["name"][1]), repo.loc(rf, hnode))
     # (d) block reader
     whereb = repo.loc(rb, rb.node)
